@@ -112,3 +112,410 @@ end Slotted
 #print axioms Slotted.C19_slotted
 #print axioms Slotted.slotted_count
 #print axioms Slotted.tame_subset_slotted
+
+/-! ## C06 on Slotted templates: the two child views hold the same children, each once -/
+namespace Slotted
+open Msimple Mslot
+
+mutual
+theorem blocks_names : (p : Particle) → (blocks p).flatMap (·.names) = p.leaves
+  | .elem n _ _ => by simp [blocks, Particle.leaves]
+  | .seq _ _ ps => by simpa [blocks, Particle.leaves] using blocksL_names ps
+  | .choice _ _ ps => by simp [blocks, Particle.leaves]
+  | .group _ _ _ p => by simpa [blocks, Particle.leaves] using blocks_names p
+theorem blocksL_names : (ps : List Particle) → (blocksL ps).flatMap (·.names) = Particle.leavesL ps
+  | [] => by simp [blocksL, Particle.leavesL]
+  | p :: ps => by simp [blocksL, Particle.leavesL, blocks_names p, blocksL_names ps]
+end
+
+theorem blocks_perm (bs : List Block) (hnd : (bs.flatMap (·.names)).Nodup) (k : Kids)
+    (hsub : ∀ c ∈ k, c.2 ∈ bs.flatMap (·.names)) : (bs.flatMap fun b => inBlock b k).Perm k := by
+  induction bs generalizing k with
+  | nil =>
+    have : k = [] := by
+      cases k with
+      | nil => rfl
+      | cons c r => exact absurd (hsub c (by simp)) (by simp)
+    subst this; simp
+  | cons b bs ih =>
+    simp only [List.flatMap_cons, List.nodup_append] at hnd
+    obtain ⟨_, hn2, hdisj⟩ := hnd
+    simp only [List.flatMap_cons]
+    let k' := k.filter fun c => !(b.names.contains c.2)
+    have hk' : ∀ c ∈ k', c.2 ∈ bs.flatMap (·.names) := by
+      intro c hc
+      have hc' := List.mem_filter.1 hc
+      have := hsub c hc'.1
+      simp only [List.flatMap_cons, List.mem_append] at this
+      rcases this with h | h
+      · simp [h] at hc'
+      · exact h
+    have hcongr : ∀ (bs' : List Block), (∀ b' ∈ bs', ∀ x ∈ b'.names, x ∉ b.names) →
+        (bs'.flatMap fun b' => inBlock b' k) = (bs'.flatMap fun b' => inBlock b' k') := by
+      intro bs' hb
+      induction bs' with
+      | nil => rfl
+      | cons b' r ih' =>
+        simp only [List.flatMap_cons]
+        rw [ih' (fun x hx => hb x (by simp [hx]))]
+        congr 1
+        simp only [inBlock, k', List.filter_filter]
+        apply List.filter_congr
+        intro c _
+        by_cases h : b'.names.contains c.2 = true
+        · have hmem : c.2 ∈ b'.names := by simpa using h
+          have : c.2 ∉ b.names := hb b' (by simp) c.2 hmem
+          simp [h, this]
+        · have hnm : c.2 ∉ b'.names := by simpa using h
+          simp [hnm]
+    have hdis : ∀ b' ∈ bs, ∀ x ∈ b'.names, x ∉ b.names := by
+      intro b' hb' x hx hxb
+      exact hdisj x hxb x (List.mem_flatMap.2 ⟨b', hb', hx⟩) rfl
+    rw [hcongr bs hdis]
+    have h1 := ih hn2 k' hk'
+    have h2 : (inBlock b k ++ k').Perm k := List.filter_append_perm _ k
+    exact (List.Perm.append_left _ h1).trans h2
+
+/-- the schema-ordered view is a permutation of the insertion-ordered view -/
+theorem ordered_perm_slotted (p : Particle) (hs : isSlotted p = true) (k : Kids) (hi : InvS p k) :
+    (Mslot.ordered p k).Perm k := by
+  simp only [isSlotted, Bool.and_eq_true] at hs
+  have hnd := nodupNat_iff.1 hs.2
+  exact blocks_perm (blocks p) (by rw [blocks_names]; exact hnd) k (by rw [blocks_names]; exact hi.1)
+
+/-- fresh child ids: no child occurs twice (the same bookkeeping lemma as for Msimple) -/
+def fresh : List Nat → List Op → Prop
+  | _, [] => True
+  | seen, .add c _ _ :: r => c ∉ seen ∧ fresh (c :: seen) r
+  | seen, .rm _ :: r => fresh seen r
+  | seen, .repl _ nw _ :: r => nw ∉ seen ∧ fresh (nw :: seen) r
+
+theorem ids_replFirst_sub (old : Nat) (nw : Nat × Nat) (k : Kids) :
+    ∀ x ∈ ids (replFirst old nw k), x = nw.1 ∨ x ∈ ids k := by
+  induction k with
+  | nil => simp [replFirst, ids]
+  | cons c r ih =>
+    intro x hx
+    simp only [replFirst] at hx
+    split at hx
+    · simp only [ids, List.map_cons, List.mem_cons] at hx ⊢
+      rcases hx with h | h
+      · exact .inl h
+      · exact .inr (.inr h)
+    · simp only [ids, List.map_cons, List.mem_cons] at hx ih ⊢
+      rcases hx with h | h
+      · exact .inr (.inl h)
+      · rcases ih x h with h' | h'
+        · exact .inl h'
+        · exact .inr (.inr h')
+
+theorem nodup_replFirst (old : Nat) (nw : Nat × Nat) (k : Kids) (hnd : (ids k).Nodup) (hnew : nw.1 ∉ ids k) :
+    (ids (replFirst old nw k)).Nodup := by
+  induction k with
+  | nil => simp [replFirst, ids]
+  | cons c r ih =>
+    simp only [ids, List.map_cons, List.nodup_cons, List.mem_cons, not_or] at hnd hnew
+    simp only [replFirst]
+    split
+    · simp only [ids, List.map_cons, List.nodup_cons]
+      exact ⟨hnew.2, hnd.2⟩
+    · simp only [ids, List.map_cons, List.nodup_cons]
+      refine ⟨?_, ih hnd.2 hnew.2⟩
+      intro hmem
+      rcases ids_replFirst_sub old nw r c.1 hmem with h | h
+      · exact hnew.1 h.symm
+      · exact hnd.1 h
+
+theorem nodup_stepS {p : Particle} {k : Kids} {seen : List Nat} (hsub : ∀ x ∈ ids k, x ∈ seen)
+    (hnd : (ids k).Nodup) (op : Op) (r : List Op) (hf : fresh seen (op :: r)) :
+    ∃ seen', (∀ x ∈ ids (applyS p k op), x ∈ seen') ∧ (ids (applyS p k op)).Nodup ∧ fresh seen' r := by
+  unfold applyS
+  cases op with
+  | add c n f =>
+    simp only [fresh] at hf
+    split
+    · rename_i k' h
+      simp only [stepS] at h
+      obtain ⟨_, rfl⟩ := add_ok_iff h
+      refine ⟨c :: seen, ?_, ?_, hf.2⟩
+      · intro x hx; simp [ids] at hx; rcases hx with ⟨b, hb⟩ | rfl
+        · exact List.mem_cons_of_mem _ (hsub x (by simp [ids]; exact ⟨b, hb⟩))
+        · simp
+      · simp only [ids, List.map_append, List.map_cons, List.map_nil]
+        refine List.nodup_append.2 ⟨hnd, by simp, ?_⟩
+        intro a ha b hb
+        simp at hb; subst hb
+        intro heq; subst heq; exact hf.1 (hsub a ha)
+    · exact ⟨c :: seen, fun x hx => List.mem_cons_of_mem _ (hsub x hx), hnd, hf.2⟩
+  | rm c =>
+    simp only [fresh] at hf
+    split
+    · rename_i k' h
+      simp only [stepS, remove] at h
+      split at h
+      · cases h
+        refine ⟨seen, ?_, ?_, hf⟩
+        · intro x hx
+          simp only [ids, List.mem_map] at hx
+          obtain ⟨y, hy, rfl⟩ := hx
+          exact hsub _ (by simp only [ids, List.mem_map]; exact ⟨y, (List.mem_filter.1 hy).1, rfl⟩)
+        · exact (List.filter_sublist.map _).nodup hnd
+      · cases h
+    · exact ⟨seen, hsub, hnd, hf⟩
+  | repl o nw n =>
+    simp only [fresh] at hf
+    split
+    · rename_i k' h
+      simp only [stepS, replace] at h
+      split at h
+      · cases h
+      · split at h
+        · cases h
+          refine ⟨nw :: seen, ?_, ?_, hf.2⟩
+          · intro x hx
+            rcases ids_replFirst_sub o (nw, n) k x hx with h | h
+            · simp [h]
+            · exact List.mem_cons_of_mem _ (hsub x h)
+          · exact nodup_replFirst o (nw, n) k hnd (fun h => hf.1 (hsub _ h))
+        · cases h
+    · exact ⟨nw :: seen, fun x hx => List.mem_cons_of_mem _ (hsub x hx), hnd, hf.2⟩
+
+theorem ids_nodup_runS (p : Particle) (ops : List Op) (hf : fresh [] ops) : (ids (runS p ops)).Nodup := by
+  have : ∀ (ops : List Op) (k : Kids) (seen : List Nat), (∀ x ∈ ids k, x ∈ seen) → (ids k).Nodup →
+      fresh seen ops → (ids (ops.foldl (applyS p) k)).Nodup := by
+    intro ops
+    induction ops with
+    | nil => intro k _ _ h _; exact h
+    | cons op r ih =>
+      intro k seen hs hn hfr
+      obtain ⟨seen', h1, h2, h3⟩ := nodup_stepS (p := p) hs hn op r hfr
+      exact ih (applyS p k op) seen' h1 h2 h3
+  exact this ops [] [] (by simp [ids]) (by simp [ids]) hf
+
+/-- C06 on the 78 Slotted content models -/
+theorem C06_slotted (p : Particle) (hs : isSlotted p = true) (ops : List Op) (hf : fresh [] ops) :
+    (Mslot.ordered p (runS p ops)).Perm (runS p ops) ∧ (ids (runS p ops)).Nodup ∧
+    (ids (Mslot.ordered p (runS p ops))).Nodup := by
+  have hp := ordered_perm_slotted p hs (runS p ops) (invS_run p hs ops)
+  have hn := ids_nodup_runS p ops hf
+  exact ⟨hp, hn, (hp.map _).nodup_iff.2 hn⟩
+end Slotted
+
+#print axioms Slotted.C06_slotted
+
+/-! ## C07 on Slotted templates: explicit completion, and rejections are necessary -/
+namespace Slotted
+open Msimple Mslot
+
+mutual
+/-- the children still to add: the under-filled element leaves and one child for every empty
+    required slot, of every scope that is required or non-empty -/
+def needS (c : Nat → Nat) : Particle → List Nat
+  | .elem n mi _ => List.replicate (mi - c n) n
+  | .seq mi _ ps => if mi == 0 && Particle.empL c ps then [] else needSL c ps
+  | .choice mi _ ps => if decide (mi ≥ 1) && Particle.empL c ps then (Particle.leavesL ps).take 1 else []
+  | .group _ mi _ p => if mi == 0 && p.emp c then [] else needS c p
+def needSL (c : Nat → Nat) : List Particle → List Nat
+  | [] => []
+  | p :: ps => needS c p ++ needSL c ps
+end
+
+mutual
+theorem needS_subset (c : Nat → Nat) : (p : Particle) → ∀ x ∈ needS c p, x ∈ p.leaves
+  | .elem n mi ma => by
+    intro x hx; simp only [needS] at hx
+    simp [Particle.leaves, (List.mem_replicate.1 hx).2]
+  | .seq mi ma ps => by
+    intro x hx; simp only [needS] at hx
+    split at hx
+    · cases hx
+    · simpa [Particle.leaves] using needSL_subset c ps x hx
+  | .choice _ _ ps => by
+    intro x hx; simp only [needS] at hx
+    split at hx
+    · simpa [Particle.leaves] using List.mem_of_mem_take hx
+    · cases hx
+  | .group _ mi ma p => by
+    intro x hx; simp only [needS] at hx
+    split at hx
+    · cases hx
+    · simpa [Particle.leaves] using needS_subset c p x hx
+theorem needSL_subset (c : Nat → Nat) : (ps : List Particle) → ∀ x ∈ needSL c ps, x ∈ Particle.leavesL ps
+  | [] => by intro x hx; simp [needSL] at hx
+  | p :: ps => by
+    intro x hx
+    simp only [needSL, List.mem_append] at hx
+    simp only [Particle.leavesL, List.mem_append]
+    rcases hx with h | h
+    · exact .inl (needS_subset c p x h)
+    · exact .inr (needSL_subset c ps x h)
+end
+
+-- what the completion looks like through the eyes of a sub-particle: a word `e` whose restriction
+-- to the particle's leaves is the particle's own need
+mutual
+theorem complete_ok (w e : List Nat) : (p : Particle) → slotted p = true → p.leaves.Nodup →
+    (p.specs.all fun s => leMax s.2.1 s.2.2) = true → maxOK w p = true →
+    restr p.leaves e = needS (cnt w) p →
+    maxOK (w ++ e) p = true ∧ Mslot.missing (cnt (w ++ e)) p = []
+  | .elem n mi ma, _, _, hwf, hm, he => by
+    simp only [Particle.leaves] at he
+    simp only [needS] at he
+    have hc : cnt (w ++ e) n = cnt w n + (mi - cnt w n) := by
+      have : cnt e n = mi - cnt w n := by
+        rw [← cnt_restr (S := [n]) (by simp), he]; simp [cnt]
+      simp [cnt, List.count_append] at this ⊢; omega
+    simp only [Particle.specs, List.all_cons, List.all_nil, Bool.and_true] at hwf
+    simp only [maxOK] at hm
+    refine ⟨?_, ?_⟩
+    · simp only [maxOK, hc]
+      cases ma with
+      | none => rfl
+      | some m => simp only [leMax, decide_eq_true_eq] at hm hwf ⊢; omega
+    · simp only [Mslot.missing, hc]
+      split
+      · rename_i hlt; omega
+      · rfl
+  | .seq mi ma ps, hs, hnd, hwf, hm, he => by
+    simp only [slotted, Bool.and_eq_true] at hs
+    simp only [Particle.leaves] at hnd he
+    simp only [Particle.specs] at hwf
+    simp only [maxOK] at hm ⊢
+    simp only [Mslot.missing]
+    by_cases hc : (mi == 0 && Particle.empL (cnt w) ps) = true
+    · -- optional and empty: nothing is added under it, it stays empty
+      simp only [needS, hc, if_true] at he
+      have hwe : restr (Particle.leavesL ps) (w ++ e) = restr (Particle.leavesL ps) w := by
+        rw [restr_append, he, List.append_nil]
+      have hemp : Particle.empL (cnt (w ++ e)) ps = Particle.empL (cnt w) ps :=
+        Particle.empL_congr _ _ ps (fun n hn => cnt_of_restr_eq hwe hn)
+      refine ⟨by rw [maxOKL_congr _ _ ps hwe]; exact hm, ?_⟩
+      simp only [Bool.and_eq_true] at hc
+      simp [hc.1, hemp, hc.2]
+    · simp only [needS, hc, Bool.false_eq_true, if_false] at he
+      have := completeL_ok w e ps hs.2 hnd hwf hm he
+      refine ⟨this.1, ?_⟩
+      split
+      · rfl
+      · exact this.2
+  | .choice mi ma ps, hs, _, _, hm, he => by
+    simp only [slotted] at hs
+    obtain ⟨hmi, hne, hma, hu⟩ := slot_shape hs
+    simp only [Particle.leaves] at he
+    simp only [maxOK] at hm ⊢
+    simp only [Mslot.missing]
+    have hl := unit_leaves_ne_nil hne hu
+    by_cases hc : (decide (mi ≥ 1) && Particle.empL (cnt w) ps) = true
+    · simp only [needS, hc, if_true] at he
+      have hw0 : restr (Particle.leavesL ps) w = [] := (empL_iff_restr_nil w ps).1 (by
+        simp only [Bool.and_eq_true] at hc; exact hc.2)
+      obtain ⟨a, r, hl'⟩ : ∃ a r, Particle.leavesL ps = a :: r := by
+        cases h : Particle.leavesL ps with
+        | nil => exact absurd h hl
+        | cons a r => exact ⟨a, r, rfl⟩
+      have hwe : restr (Particle.leavesL ps) (w ++ e) = [a] := by
+        rw [restr_append, hw0, he, hl']; rfl
+      refine ⟨?_, ?_⟩
+      · rw [hwe]; rcases hma with rfl | rfl <;> simp [leMax]
+      · have hne' : ¬ Particle.empL (cnt (w ++ e)) ps = true := by
+          intro h; have := (empL_iff_restr_nil _ ps).1 h; rw [hwe] at this; cases this
+        simp [hne']
+    · simp only [needS, hc, Bool.false_eq_true, if_false] at he
+      have hwe : restr (Particle.leavesL ps) (w ++ e) = restr (Particle.leavesL ps) w := by
+        rw [restr_append, he, List.append_nil]
+      refine ⟨by rw [hwe]; exact hm, ?_⟩
+      have hemp : Particle.empL (cnt (w ++ e)) ps = Particle.empL (cnt w) ps :=
+        Particle.empL_congr _ _ ps (fun n hn => cnt_of_restr_eq hwe hn)
+      rw [hemp]
+      simp only [hc, Bool.false_eq_true, if_false]
+  | .group _ mi ma p, hs, hnd, hwf, hm, he => by
+    simp only [slotted, Bool.and_eq_true] at hs
+    simp only [Particle.leaves] at hnd he
+    simp only [Particle.specs] at hwf
+    simp only [maxOK] at hm ⊢
+    simp only [Mslot.missing]
+    by_cases hc : (mi == 0 && p.emp (cnt w)) = true
+    · simp only [needS, hc, if_true] at he
+      have hwe : restr p.leaves (w ++ e) = restr p.leaves w := by
+        rw [restr_append, he, List.append_nil]
+      have hemp : p.emp (cnt (w ++ e)) = p.emp (cnt w) :=
+        Particle.emp_congr _ _ p (fun n hn => cnt_of_restr_eq hwe hn)
+      refine ⟨by rw [maxOK_congr _ _ p hwe]; exact hm, ?_⟩
+      simp only [Bool.and_eq_true] at hc
+      simp [hc.1, hemp, hc.2]
+    · simp only [needS, hc, Bool.false_eq_true, if_false] at he
+      have := complete_ok w e p hs.2 hnd hwf hm he
+      refine ⟨this.1, ?_⟩
+      split
+      · rfl
+      · exact this.2
+theorem completeL_ok (w e : List Nat) : (ps : List Particle) → slottedL ps = true → (Particle.leavesL ps).Nodup →
+    ((Particle.specsL ps).all fun s => leMax s.2.1 s.2.2) = true → maxOKL w ps = true →
+    restr (Particle.leavesL ps) e = needSL (cnt w) ps →
+    maxOKL (w ++ e) ps = true ∧ Mslot.missingL (cnt (w ++ e)) ps = []
+  | [], _, _, _, _, _ => ⟨rfl, rfl⟩
+  | p :: ps, hs, hnd, hwf, hm, he => by
+    simp only [slottedL, Bool.and_eq_true] at hs
+    simp only [Particle.leavesL, List.nodup_append] at hnd
+    obtain ⟨hn1, hn2, hdisj⟩ := hnd
+    simp only [Particle.specsL, List.all_append, Bool.and_eq_true] at hwf
+    simp only [maxOKL, Bool.and_eq_true] at hm
+    simp only [Particle.leavesL, needSL] at he
+    -- restricting the equation to the leaves of p / of ps splits it
+    have e1 : restr p.leaves e = needS (cnt w) p := by
+      have := congrArg (restr p.leaves) he
+      rw [restr_restr_sub (by intro x hx; simp [hx]), restr_append,
+        restr_eq_self (needS_subset _ p),
+        restr_eq_nil (fun x hx hp => hdisj x hp x (needSL_subset _ ps x hx) rfl), List.append_nil] at this
+      exact this
+    have e2 : restr (Particle.leavesL ps) e = needSL (cnt w) ps := by
+      have := congrArg (restr (Particle.leavesL ps)) he
+      rw [restr_restr_sub (by intro x hx; simp [hx]), restr_append,
+        restr_eq_nil (fun x hx hp => hdisj x (needS_subset _ p x hx) x hp rfl),
+        restr_eq_self (needSL_subset _ ps), List.nil_append] at this
+      exact this
+    have h1 := complete_ok w e p hs.1 hn1 hwf.1 hm.1 e1
+    have h2 := completeL_ok w e ps hs.2 hn2 hwf.2 hm.2 e2
+    simp only [maxOKL, Mslot.missingL, Bool.and_eq_true, List.append_eq_nil_iff]
+    exact ⟨⟨h1.1, h2.1⟩, h1.2, h2.2⟩
+end
+
+/-- C07 on Slotted templates: every reachable state completes — the explicit completion is accepted
+    child by child and the result passes the final check -/
+theorem C07_complete_slotted (p : Particle) (hs : isSlotted p = true)
+    (hwf : (p.specs.all fun s => leMax s.2.1 s.2.2) = true) (k : Kids) (hi : InvS p k) (i : Nat) :
+    runES p k (addOps i (needS (cnt (names k)) p)) = .ok (k ++ zipIds i (needS (cnt (names k)) p)) ∧
+    Mslot.required p (k ++ zipIds i (needS (cnt (names k)) p)) = [] := by
+  have hs' := hs
+  simp only [isSlotted, Bool.and_eq_true] at hs'
+  have hnd := nodupNat_iff.1 hs'.2
+  have hc := complete_ok (names k) (needS (cnt (names k)) p) p hs'.1 hnd hwf hi.2
+    (restr_eq_self (needS_subset _ p))
+  refine ⟨?_, ?_⟩
+  · rw [addOps_eq]
+    apply runES_addsK p hs k
+    · intro c hc'
+      have : c.2 ∈ names (zipIds i (needS (cnt (names k)) p)) := List.mem_map_of_mem (f := (·.2)) hc'
+      rw [names_zipIds] at this
+      exact needS_subset _ p _ this
+    · rw [names_append, names_zipIds]; exact hc.1
+  · simp only [Mslot.required, names_append, names_zipIds]; exact hc.2
+
+/-- a child that is refused could not be part of any valid arrangement with the present children:
+    no word of the content model has at least the present children plus the refused one -/
+theorem C07_reject_needed_slotted (p : Particle) (hs : isSlotted p = true) (k : Kids) (_hi : InvS p k)
+    (c n : Nat) (e : Err) (h : Mslot.add p k c n none = .error e) :
+    ¬ ∃ w, p.Lang w ∧ (names k ++ [n]).Sublist w := by
+  have hs' := hs
+  simp only [isSlotted, Bool.and_eq_true] at hs'
+  have hnd := nodupNat_iff.1 hs'.2
+  rintro ⟨w, hw, hsub⟩
+  have hok := (slotted_iff p hs'.1 hnd w).1 hw
+  have hm := maxOK_sublist w _ hsub p (maxOK_of_okS w p hok.1)
+  have hn : n ∈ p.leaves := Particle.Lang_subset p w hw n (hsub.subset (by simp))
+  have := place_ok_of_maxOK (names k) n p hs'.1 hnd hn hm
+  simp [Mslot.add, fwdCheck, addPlain, this] at h
+end Slotted
+
+#print axioms Slotted.C07_complete_slotted
+#print axioms Slotted.C07_reject_needed_slotted
